@@ -245,7 +245,7 @@ TYPE_PAIRS = [('u', 'u'), ('i', 'r'), ('s', 'i')]
 
 
 def e2e_case(cid, directed, assort, from_init, ltype, wtype, r, maxit, nconv, seed, starts, ends, weights, aff,
-             u_rows, u_cols, u0, v_rows, v_cols, v0, labels0, script):
+             u_rows, u_cols, u0, v_rows, v_cols, v0, labels0, script, trace=0):
     t = ['E2E', str(cid), str(int(directed)), str(int(assort)), str(int(from_init)), ltype, wtype,
          str(r), str(maxit), str(nconv), str(seed)]
     t += [str(len(starts))] + list(starts) + [str(len(ends))] + list(ends) + [str(len(weights))] + list(weights)
@@ -256,22 +256,23 @@ def e2e_case(cid, directed, assort, from_init, ltype, wtype, r, maxit, nconv, se
     t += [str(len(script))]
     for s in script:
         t += [str(len(s))] + [fhex(x) for x in s]
+    t += [str(trace)]
     return ' '.join(t)
 
 
 def gen_e2e(rng, cid, variant=None, types=None, maxit_max=25, r_max=3, prior='zero', nmax=None, script=None,
-            nconv=None, edges=None):
+            nconv=None, edges=None, trace=0, K=None, r=None, maxit=None, seed=None):
     directed, assort, from_init = variant if variant is not None else (rng.chance(0.5), rng.chance(0.5), rng.chance(0.5))
     ltype, wtype = types or rng.choice(TYPE_PAIRS)
     e = edges or gen_edges(rng, ltype, wtype, nmax=nmax or rng.choice([3, 5, 8]), recmax=rng.choice([3, 8, 16]))
     recs = e['recs']
     L = e['L']
-    K = rng.rint(2, 4)
+    K = K or rng.rint(2, 4)
     N = len(first_appearance(recs))
-    r = rng.rint(1, r_max)
-    maxit = rng.choice([1, 2, rng.rint(3, maxit_max), rng.rint(3, maxit_max)])
+    r = r or rng.rint(1, r_max)
+    maxit = maxit or rng.choice([1, 2, rng.rint(3, maxit_max), rng.rint(3, maxit_max)])
     nconv = nconv or rng.rint(1, 3)
-    seed = rng.choice([0, 1, 42, rng.below(1 << 31)])
+    seed = seed if seed is not None else rng.choice([0, 1, 42, rng.below(1 << 31)])
     aff_n = K * L if assort else K * K * L
     if from_init:
         aff = [rng.choice([0.0, rng.unit(), rng.unit() * 3, 1e-7]) for _ in range(aff_n)]
@@ -290,7 +291,7 @@ def gen_e2e(rng, cid, variant=None, types=None, maxit_max=25, r_max=3, prior='ze
     ends = [t for _, t, _ in recs]
     weights = [w for _, _, ws in recs for w in ws]
     line = e2e_case(cid, directed, assort, from_init, ltype, wtype, r, maxit, nconv, seed, starts, ends, weights, aff,
-                    N, K, u0, vr, vc, v0, labels0, script or [])
+                    N, K, u0, vr, vc, v0, labels0, script or [], trace)
     meta = {'directed': directed, 'assort': assort, 'from_init': from_init, 'ltype': ltype, 'wtype': wtype, 'r': r,
             'maxit': maxit, 'nconv': nconv, 'seed': seed, 'N': N, 'K': K, 'L': L, 'recs': recs, 'aff': aff, 'prior': prior,
             'u0': u0, 'v0': v0}
